@@ -113,9 +113,12 @@ Definition in_box (R : rect) (p : pt) : Prop :=
 Definition dist2 (cx cy : Q) (p : pt) : Q := (px p - cx) * (px p - cx) + (py p - cy) * (py p - cy).
 Definition circ_contains (C : circ) (p : pt) : bool :=
   Qle_bool 0 (cr C) && Qle_bool (dist2 (ccx C) (ccy C) p) (cr C * cr C).
-(* Circle.shapely_object = Point(center).buffer(radius): the polygonal disc whose vertices lie on
-   the circle of this radius about the centre *)
-Definition circ_export_radius (C : circ) : Q := cr C.
+(* Circle.shapely_object = Point(center).buffer(radius / 2) (shape.py:241-243): the polygonal disc whose
+   vertices lie on the circle of HALF the radius about the centre.  This is the code as it is: the defect is
+   the recorded finding "Circle.shapely_object:radius" (its repair makes tests/common/test_file_reader.py::
+   test_open_all fail, which pins the lanelet set {100} of a circular obstacle), see C06_circle_export_refuted *)
+Definition circ_export_radius (C : circ) : Q := (1 # 2) * cr C.
+Definition circ_exported (C : circ) : circ := {| cr := circ_export_radius C; ccx := ccx C; ccy := ccy C |}.
 Definition in_disc (cx cy r : Q) (p : pt) : Prop := 0 <= r /\ dist2 cx cy p <= r * r.
 
 (* Polygon.contains_point: bounding-box pre-test and shapely intersects *)
@@ -216,7 +219,7 @@ Definition disc_meets_ring (C : circ) (r : ring) : bool :=
 Definition prim_meets_ring (s : prim) (r : ring) : bool :=
   match s with
   | PRect R => ring_meets (rect_export R) r
-  | PCirc C => disc_meets_ring C r
+  | PCirc C => disc_meets_ring (circ_exported C) r   (* the lookups intersect with shape.shapely_object *)
   | PPoly q => ring_meets q r
   end.
 
